@@ -243,9 +243,89 @@ def malformed_oracle(sp) -> core.CaseResult:
     return res
 
 
+
+# ---- the clock inside a running model (cold and warm start) --------------------------------------
+
+
+@st.composite
+def model_cases(draw):
+    from vlib import sim
+
+    scn = draw(sim.scenario(max_steps=12, layouts=("sparse",), numrec=(1, 2, 3), lonlat=(False,), pvars=[],
+                            ref_kinds=("none", "before", "after"), kills=False))
+    scn["warm_point"] = draw(st.integers(0, 5))
+    return scn
+
+
+def model_oracle(scn) -> core.CaseResult:
+    """Through ladim.main: a recording IBM notes (step, clock, CF time) in every step of a cold run and of a run
+    warm-started from one of its files; the clock must read start +- n*dt, the CF value its offset from the
+    reference time."""
+    import copy
+
+    from vlib import e2e, sim
+
+    res = core.CaseResult()
+    rev = scn["time"]["reverse"]
+    sgn = -1 if rev else 1
+    res.cls("model_reversed" if rev else "model_forward")
+    dt = np.timedelta64(sim.DT, "s")
+
+    def judge(log, t0, what, ref):
+        steps = [e for e in log if e[0] == "ibm"]
+        for e in steps:
+            n, tstr = e[1], e[2]
+            want = np.datetime64(t0, "s") + sgn * n * dt
+            if not res.check(np.datetime64(tstr, "s") == want, "model_clock",
+                             f"{what}: at step {n} the model clock reads {tstr}, expected {want}"):
+                return False
+        return bool(steps)
+
+    with e2e.workdir() as d0, e2e.workdir() as d1:
+        r0, m0 = sim.run(d0, scn, record_output=True, record_ibm=True)
+        if not res.check(r0["status"] == "ok", "model_run_fails", f"{r0['exc']}"):
+            return res
+        if not judge(r0["log"], m0["start"], "cold start", m0["ref"]):
+            return res
+        for w in [e for e in r0["log"] if e[0] == "write"]:
+            res.check(np.datetime64(w[2], "s") == np.datetime64(m0["start"], "s") + sgn * w[1] * dt, "model_clock",
+                      f"cold start: record written at step {w[1]} with clock {w[2]}")
+        res.nontrivial = True
+        if rev:
+            return res  # warm starts are exercised in forward time (as the restart property quantifies)
+        numrec = scn["output"]["numrec"]
+        points = []
+        for k, wname in enumerate(e2e.list_outputs(d0)):
+            fk = e2e.read_sparse(d0 / wname)
+            done = int((fk["times"][-1] - m0["start"]) / dt) if len(fk["times"]) else 0
+            if len(fk["times"]) == numrec and done < scn["time"]["nsteps"]:
+                points.append((k, wname, done, fk["times"][-1]))
+        if not points:
+            return res
+        k, wname, done, t_restart = points[scn["warm_point"] % len(points)]
+        path, m1 = sim.build(d1, copy.deepcopy(scn), out_name=f"out_{k + 1:03d}.nc", record_output=True,
+                             record_ibm=True, ibm_offset=done)
+        conf = m1["conf"]
+        del conf["time"]["start"]
+        conf["warm_start"] = {"filename": str(d0 / wname),
+                              "variables": ["tag", "age"] + (["temp"] if scn["forcing"]["temp"] else [])}
+        e2e.write_yaml(conf, path)
+        r1 = e2e.run_main(path)
+        if not res.check(r1["status"] == "ok", "model_run_fails", f"warm start: {r1['exc']}\n{(r1['tb'] or '')[-400:]}"):
+            return res
+        judge(r1["log"], t_restart, f"warm start from {wname} at {t_restart}", None)
+        for w in [e for e in r1["log"] if e[0] == "write"]:
+            res.check(np.datetime64(w[2], "s") == np.datetime64(t_restart, "s") + w[1] * dt, "model_clock",
+                      f"warm start from {wname}: record written at step {w[1]} with clock {w[2]}, restart time {t_restart}")
+        res.cls("model_warm_start")
+    return res
+
+
 def shard(part, n, seed, known):
     stt = core.Stats()
-    if part == "clock":
+    if part == "model":
+        core.drive("model", model_cases(), model_oracle, n, seed, stt, known)
+    elif part == "clock":
         core.drive("clock", clock_cases, clock_oracle, n, seed, stt, known)
     elif part == "period":
         core.drive("period", period_cases, period_oracle, n, seed, stt, known)
@@ -260,7 +340,9 @@ def run(ctx):
     n_per = ctx.n(6000, 60000)
     n_mal = ctx.n(8000, 60000)
     jobs = []
-    for i, k in enumerate(core.split(n_clock, 12)):
+    for i, k in enumerate(core.split(ctx.n(240, 4000), 4)):
+        jobs.append(("model", k, core.subseed(ctx.seed, "model", i), ctx.known_sigs))
+    for i, k in enumerate(core.split(n_clock, 8)):
         jobs.append(("clock", k, core.subseed(ctx.seed, "clock", i), ctx.known_sigs))
     for i, k in enumerate(core.split(n_per, 2)):
         jobs.append(("period", k, core.subseed(ctx.seed, "period", i), ctx.known_sigs))
@@ -273,10 +355,13 @@ def run(ctx):
         rule=("clock: generated (start, dt, duration=q*dt+r, direction, reference, spellings, probe steps); "
               "non-trivial = reversed or dt not dividing or negative probe step. period: every spelling of n "
               "seconds must normalise to n s; non-trivial = >= 8 spellings applicable. malformed: fixed list + "
-              "random short strings that do not match the documented grammar must raise ValueError"),
+              "random short strings that do not match the documented grammar must raise ValueError. model: generated "
+              "end-to-end runs, cold (forward and reversed) and warm-started from a drawn file boundary, in which a "
+              "recording IBM and a recording output note step and clock: the clock must read start +- n*dt"),
         assumptions=["integer-second reference arithmetic; units s, m, h as documented for step2nctime"],
     )
 
 
 def replay(part, case):
-    return {"clock": clock_oracle, "period": period_oracle, "malformed": malformed_oracle}[part](case)
+    return {"clock": clock_oracle, "period": period_oracle, "malformed": malformed_oracle,
+            "model": model_oracle}[part](case)
